@@ -585,7 +585,7 @@ def cases(which):
 
                 def havoc_locals(env, i, n):
                     G.write(env["numer_sum"], S(env, G.loop_bound(i, nv)), "loop cut point")
-                    return {}
+                    return {"numer_sum": env["numer_sum"]}       # also when the body rebinds the name (numer_sum += ...)
                 spec = astvc.LoopSpec(invariant, havoc_locals=havoc_locals, name="sites")
                 f_ = astvc.load(type(obs).apply, {0: spec}, vc, None, cls=type(obs), name="Sigma%s.apply" % letter)[0]
                 return f_(obs, st, samples)
